@@ -88,7 +88,7 @@ theorem rec_queueRest_content (pr : PrInfo) (N : Nat) : ∀ (ds : List Dest) {l 
     | some wc =>
       rw [hw] at hm
       simp only at hm
-      cases hm1 : l.merge (.q d) [wc, prevQ] with
+      cases hm1 : l.mergeN pr.noOct (.q d) wc prevQ with
       | none => rw [hm1] at hm; simp at hm
       | some l1 =>
         rw [hm1] at hm
@@ -99,8 +99,8 @@ theorem rec_queueRest_content (pr : PrInfo) (N : Nat) : ∀ (ds : List Dest) {l 
           rcases hx with rfl | rfl
           · exact hl.valid _ _ hw
           · exact hp
-        obtain ⟨hl1, hext1, hsame1, _, _, _, _, _, _⟩ := Loc.merge_spec hl hs hm1
-        obtain ⟨qold, c, hqold, hc, hex⟩ := Loc.merge_exact hl hs hm1
+        obtain ⟨hl1, hext1, hsame1, _, _, _, _, _, _⟩ := Loc.mergeN_spec hl hs hm1
+        obtain ⟨qold, c, hqold, hc, hex⟩ := Loc.mergeN_exact hl hs hm1
         rw [hc] at hm
         simp only at hm
         have hclt : c < l1.g.size := hl1.valid _ _ hc
